@@ -313,7 +313,8 @@ NAMES = [b"", b"", b"A", b"B", b"message_manager"]
 def gen_history(rng: random.Random, profile: str, nrounds: int = 14, loglevel: Optional[int] = None,
                 timecode: Optional[bool] = None) -> History:
     """structured, mostly valid histories; `profile` biases toward what a property needs:
-    routing | faults | malformed | ids | periodic | acks"""
+    routing | faults | malformed | ids | periodic | acks | nested (many subscribers of the manager's own notices,
+    frequent unwritable recipients and failing sends: notices nested inside the delivery of notices)"""
     if loglevel is None:
         loglevel = rng.choice([60, 60, 60, 40, 20, 10]) if profile != "periodic" else rng.choice([60, 60, 20])
     if timecode is None:
@@ -323,7 +324,7 @@ def gen_history(rng: random.Random, profile: str, nrounds: int = 14, loglevel: O
     # generator-side guesses (not a model): which connections exist / were told to go away
     gone = set()
     ids: Dict[int, int] = {}
-    maxc = rng.choice([2, 3, 4, 5]) if profile != "ids" else rng.choice([3, 5, 8])
+    maxc = rng.choice([2, 3, 4, 5]) if profile not in ("ids", "nested") else rng.choice([3, 5, 8])
     # open with a few accepts
     for _ in range(rng.randint(1, min(3, maxc))):
         hs.round([], [], now, accept=True)
@@ -339,9 +340,9 @@ def gen_history(rng: random.Random, profile: str, nrounds: int = 14, loglevel: O
                 gone.add(c)
             ready.append((c, f))
         allc = list(range(1, hs.nclients + 1))
-        p_unw = {"routing": 0.15, "faults": 0.3, "acks": 0.1, "periodic": 0.05}.get(profile, 0.1)
+        p_unw = {"routing": 0.15, "faults": 0.3, "acks": 0.1, "periodic": 0.05, "nested": 0.3}.get(profile, 0.1)
         writable = [c for c in allc if rng.random() >= p_unw]
-        if profile in ("faults",) and live and rng.random() < 0.3:
+        if profile in ("faults", "nested") and live and rng.random() < (0.3 if profile == "faults" else 0.4):
             hs.fault(rng.choice(live), rng.choice([0, 0, 1, 2, 3]))
         dt = rng.choice([0, 0, 1, 1, 2]) if profile != "periodic" else rng.choice([0, 1, 4, 5, 6, 21])
         now += dt
@@ -368,6 +369,8 @@ def gen_frame(rng, hs: History, profile: str, c: int, ids: Dict[int, int], live:
         w.update(publish=14, sub=3)
     if profile == "faults":
         w.update(eof=1.2, reset=1.0, trunc=1.0)
+    if profile == "nested":
+        w.update(sub=9, publish=8, setname=1.5, ready=1.5, eof=0.8, reset=0.5)
     if c not in ids:
         w.update(connect2=w["connect2"] * 4, connect1=w["connect1"] * 3)
     op = rng.choices(list(w), weights=list(w.values()))[0]
@@ -393,6 +396,9 @@ def gen_frame(rng, hs: History, profile: str, c: int, ids: Dict[int, int], live:
         pool = TYPES * 4 + [ALL, ALL, MT["FAILED_MESSAGE"], MT["FAILED_MESSAGE"], MT["CLIENT_CLOSED"], MT["CLIENT_INFO"],
                             MT["ACKNOWLEDGE"], MT["RTMA_LOG_ERROR"], MT["RTMA_LOG_INFO"], MT["RTMA_LOG_DEBUG"],
                             MT["TIMING_MESSAGE"], MT["MESSAGE_TRAFFIC"], MT["ACTIVE_CLIENTS"]]
+        if profile == "nested":
+            pool = [MT["FAILED_MESSAGE"], MT["CLIENT_CLOSED"], MT["CLIENT_INFO"], MT["RTMA_LOG_ERROR"], MT["RTMA_LOG_INFO"],
+                    MT["FAILED_MESSAGE"], MT["CLIENT_CLOSED"], ALL] + TYPES
         return hs.sub(op, rng.choice(pool), src_mod=my if my > 0 else 0)
     if op == "publish":
         tpool = TYPES * 6 + [5000, 9999, MT["ACKNOWLEDGE"], MT["FAILED_MESSAGE"], MT["CLIENT_CLOSED"], MT["RTMA_LOG_INFO"]]
